@@ -316,6 +316,17 @@ def run(ctx):
         ctx.count("factor:n")
         check_factor(ctx, n)
     ctx.info["factor_exhaustive_upto"] = top
+    # totality on deterministic corners: every small expression, every rule template x coefficient coincidence and every
+    # text one edit away from a template (near-terms: a term with one wrong operator or leaf kind)
+    texts = [t for t in G.small_expressions(2 if ctx.tier == "quick" else 3) + G.sweep_texts() + G.neighbour_texts() if "=" not in t]
+    step = 3 if ctx.tier == "quick" else 1
+    for i, t in enumerate(texts):
+        if i % step != ctx.seed % step or (i // step) % ctx.nshards != ctx.shard:
+            continue
+        ctx.count("evaluations")
+        ctx.count("total-sweep:cases")
+        check_total(ctx, {"text": t, "pre": [], "sub": "total"})
+    ctx.info["totality_sweep"] = f"{len(texts)} non-equation texts (small expressions, template sweep, one-edit neighbours); every {step}th in this tier"
     hyp_run(ctx, "order", sum_case(), check_order, ctx.n(2500, 20000))
     hyp_run(ctx, "triples", triple_case(), check_triple, ctx.n(4000, 30000))
     hyp_run(ctx, "total", G.tree_case(12 if ctx.tier == "quick" else 20).map(lambda c: {**c, "sub": "total"}), check_total, ctx.n(1500, 10000))
